@@ -32,6 +32,9 @@ def nested(depth):
     return v
 
 
+SEQ_SEP = "\x1e"
+
+
 def junk_frames(uni, rnd, tier):
     ev = uni.conc["j0"]
     flt = {"ids": [ev["id"]], "authors": [ev["pubkey"]], "kinds": [1], "#t": ["a"], "since": 1, "until": 2000000000, "limit": 5}
@@ -90,6 +93,14 @@ def junk_frames(uni, rnd, tier):
     if tier == "quick":
         rnd.shuffle(texts)
         texts = texts[:260]
+    # well-formed commands in a hostile order, pipelined without waiting for the answers (frames separated by SEQ_SEP): the
+    # same subscription id re-used while its query is running, CLOSE / re-REQ bursts, the same event twice
+    J = lambda f: json.dumps(f, ensure_ascii=False)      # noqa: E731
+    r1, r2 = ["REQ", "jsub", {"kinds": [1]}], ["REQ", "jsub", {"kinds": [1], "limit": 1}]
+    seqs = [[r1, r1], [r1, r2, r1], [r1, ["CLOSE", "jsub"], r1], [r1, ["CLOSE", "jsub"], ["CLOSE", "jsub"]], [["CLOSE", "jsub"], ["CLOSE", "jsub"]],
+            [["EVENT", ev], ["EVENT", ev]], [r1, ["EVENT", ev], r1, ["EVENT", ev]], [r1, ["REQ", "jsub", None], r1],
+            [["REQ", "jsub%d" % k, {"kinds": [1]}] for k in range(6)] + [["REQ", "jsub0", {"kinds": [7]}]], [["AUTH", ev], ["AUTH", ev]]]
+    texts += [SEQ_SEP.join(J(f) for f in sq) for sq in seqs]
     return texts
 
 
@@ -134,7 +145,7 @@ def _worker(payload):
              ("msg", 1, {"m": "REQ", "sid": "w2", "fs": [{"tags": {"t": ["a"]}}]}), ("idle",),
              ("msg", 1, {"m": "REQ", "sid": "w3", "fs": [{"tags": {"e": ["p0"], "p": ["A"]}}, {"authors": ["B"], "tags": {"t": ["b"]}}]}), ("idle",)]
         if junk is not None:
-            s += [("msg", 0, {"m": "RAW", "text": junk}), ("idle",)]
+            s += [("msg", 0, {"m": "RAW", "text": part}) for part in junk.split(SEQ_SEP)] + [("idle",)]
         if zero_continues:
             s += [("msg", 0, {"m": "REQ", "sid": "p1", "fs": [{"tags": {"t": ["b"]}}]}), ("idle",), ("msg", 0, {"m": "EVENT", "e": "p0"}), ("idle",)]
         s += [("msg", 1, {"m": "EVENT", "e": "p1"}), ("idle",), ("msg", 1, {"m": "EVENT", "e": "p2"}), ("idle",)]
